@@ -118,10 +118,16 @@ def main() -> int:
         for fn in sorted(os.listdir(pkgdir)):
             if fn.endswith(".py"):
                 with open(os.path.join(pkgdir, fn), encoding="utf-8") as fh:
-                    inv[fn[:-3]] = _nz.qualnames(_ast.parse(fh.read()))
+                    src_ = fh.read()
+                    inv[fn[:-3]] = _nz.qualnames(_ast.parse(src_))
+                    locs_ = locals().setdefault("_locs", {})
+                    locs_[fn[:-3]] = _nz.local_names(_ast.parse(src_))
         if a.write:
             with open(_nz.INVENTORY_PATH, "w") as fh:
                 _json.dump(inv, fh, indent=0, sort_keys=True)
+                fh.write("\n")
+            with open(_nz.LOCALS_PATH, "w") as fh:
+                _json.dump(locs_, fh, indent=0, sort_keys=True)
                 fh.write("\n")
             print("inventory written:", sum(len(v) for v in inv.values()), "definitions in", len(inv), "modules")
             return 0
